@@ -336,9 +336,18 @@ def build_stop(ctx, spec):
     else:
         sensor = S.Amperometer(target=tgt)
     kind = SENSOR_VAR[spec['sensor']][1]
+    thr = Q(getattr(U, kind), spec['thr'])
+    if spec.get('np'):
+        # threshold computed with numpy by the caller: a numpy.float64
+        thr = getattr(U, kind)(_np_float(thr.value), thr.unit)
     return g.utils.StopCondition(
-        sensor=sensor, threshold=Q(getattr(U, kind), spec['thr']),
+        sensor=sensor, threshold=thr,
         operator=getattr(g.utils.StopCondition, STOP_OPS[spec['op']]))
+
+
+def _np_float(v):
+    import numpy as np
+    return np.float64(v)
 
 
 # ---------------------------------------------------------------------------
@@ -688,12 +697,15 @@ def _execute(scn, keep_objects=False, prev_ctx=None):
             ctx.load_calls.append({'seq': next_seq(), 'epoch': ctx.epoch,
                                    'k': len(pt.time) - 1, 't': t, 'th': th,
                                    'w': w, 'v': v})
+            # a user function written with numpy hands back numpy scalars
+            # (numpy.float64 is a float): same number, other type
+            wrap = _np_float if spec.get('np') else float
             if spec.get('unit2') and t >= spec.get('t_unit2', 0.0):
                 # a user function may return its torque in any unit, and
                 # not always the same one
-                return U.Torque(v / si.factor('Torque', spec['unit2']),
+                return U.Torque(wrap(v / si.factor('Torque', spec['unit2'])),
                                 spec['unit2'])
-            return U.Torque(v / fac, unit)
+            return U.Torque(wrap(v / fac), unit)
         ctx.objs[li].external_torque = external_torque
         H['load_on'] = li
     if scn.get('load') is not None:
